@@ -197,6 +197,19 @@ def check_case(case):
                   [g.name, sg.sgdic.get(nm)])
         if no in alph.RHOMB:
             r.require((nm[0] == "r" and nm[-1] == "r") == rhomb, key + ":name-suffix", "rhombohedral tables carry the r suffix", rhomb, g.name)
+        # history: the caller edits the arrays it was given, then looks the group up again (by number and by its own name)
+        from ..core import scribble
+
+        for arr in (g.rot, g.trans, g.syscond):
+            scribble(arr)
+        g2 = sg.sg(sgno=no, cell_choice=cc)
+        raw2 = getattr(sglib, "Sg%d" % no)(cell_choice=cc)
+        r.require(same_group(g2, raw2) and O.exact_ops(g2) == ops, key + ":relookup", "a second lookup is not affected by in-place edits of the arrays of the first")
+        try:
+            g3 = sg.sg(sgname=g2.name)
+            r.require(same_group(g3, raw2), key + ":relookup-name", "lookup by the group's own name after in-place edits of an earlier result")
+        except Exception as ex:
+            r.violation(key + ":relookup-name", "lookup by the group's own name", None, repr(ex))
         r.states = 1
         r.nontrivial.add(key)
         r.nontrivial.update("%s:op%d" % (key, i) for i in range(len(ops)))
